@@ -16,7 +16,9 @@ RULE = ("C01-style generated programs (stratified; facts, probabilistic facts, A
         "error class. Non-trivial: at least one schedule actually permuted a batch and the program has recursion or "
         "a predicate with >= 2 clauses. Distinct = distinct (program, schedule seeds). Sub-check 'findall': programs "
         "whose queries wrap findall/3 / all/3 over probabilistic goals (C19's generator) under 4 schedules each; "
-        "result lists are compared as multisets (the element order is the one permitted difference).")
+        "result lists are compared as multisets (the element order is the one permitted difference). One program in "
+        "five has one clause whose grounding raises a user error (the statement includes 'the same errors'), one in "
+        "five comes from the evidence-biased family; one case in three grounds all runs with evidence propagation.")
 ASSUMPTIONS = ["the permutation is applied at MessageFIFO.__iadd__, i.e. to the batches of sibling eval messages the "
                "engine pushes; cycle_exhausted/pop/buffering are the repository's",
                "differential oracle: both runs wrong in the same way is C01's business, not detected here"]
@@ -26,7 +28,10 @@ def check(case):
     prog = case["prog"]
     feats = gp.features(prog)
     src = sem.render_program(prog)
-    base = plrun.run_problog(src)
+    ga = {"propagate_evidence": True} if case.get("propagate") else None
+    if ga:
+        feats.add("propagate_evidence")
+    base = plrun.run_problog(src, ground_args=ga)
     if base[0] == "resource":
         return Outcome(inconclusive=base[1], features=feats)
     if base[0] == "crash":
@@ -36,7 +41,7 @@ def check(case):
     failure = None
     for seed in case["seeds"]:
         eng = engines.make_engine("shuffle", seed)
-        res = plrun.run_problog(src, engine=eng)
+        res = plrun.run_problog(src, engine=eng, ground_args=ga)
         if res[0] == "resource":
             return Outcome(inconclusive=res[1], features=feats)
         if eng._stats["permuted"] > 0:
@@ -71,9 +76,11 @@ def _multi_clause(prog):
 
 def _strategy(nseeds):
     def f():
-        progs = st.one_of(gp.programs(), gp.programs(), gp.programs(), gp.programs(error_clauses=True, max_preds=3))
-        return st.tuples(progs, st.lists(st.integers(0, 2 ** 31), min_size=nseeds, max_size=nseeds)).map(
-            lambda t: {"prog": t[0], "seeds": t[1]})
+        progs = st.one_of(gp.programs(), gp.programs(), gp.programs(), gp.programs(error_clauses=True, max_preds=3),
+                          gp.programs(evidence_bias=True))
+        # one case in three grounds with evidence propagation (the command line's default) in all runs
+        return st.tuples(progs, st.lists(st.integers(0, 2 ** 31), min_size=nseeds, max_size=nseeds),
+                         st.integers(0, 2)).map(lambda t: {"prog": t[0], "seeds": t[1], "propagate": t[2] == 0})
     return f
 
 
@@ -121,7 +128,9 @@ def _findall_strategy():
 
 KNOWN_CLASSES = {
     "cyclic_or_complement": lambda case, failure: gp.cyclic_body_disjunction_with_complement(case["prog"]),
-    "zero_prob_or_complementary_body": lambda case, failure: gp.zero_prob_or_complementary_body(case["prog"]),
+    "zero_prob_or_complementary_body": lambda case, failure: gp.zero_prob_or_complementary_body(case["prog"]) or (
+        # an atom that propagated evidence makes false behaves like a probability-0 annotation
+        bool(case.get("propagate")) and any(s[0] == "evidence" for s in case["prog"])),
     "negcycle_fp": lambda case, failure: gp.neg_on_cyclic_goal_under_active_cycle(case["prog"]),
     "neg_under_cycle": lambda case, failure: gp.neg_under_active_cycle(case["prog"]),
     "ad_cyclic_complement": lambda case, failure: gp.cyclic_multihead_ad_with_complementary_body(case["prog"]),
